@@ -57,6 +57,7 @@ type bareEnv struct {
 	sending    bool
 	cancelSend chan struct{}
 	passes     int
+	onPass     func() // called after every pass of the controlled select
 	multiReady int
 }
 
@@ -361,6 +362,9 @@ func (b *bareEnv) pump(s *sys) {
 		if b.lastPicked < 0 {
 			return
 		}
+		if b.onPass != nil {
+			b.onPass()
+		}
 	}
 }
 
@@ -579,6 +583,50 @@ func (b *bareEnv) apply(s *sys, ev string) (string, bool) {
 			return b.send(s, tmeil.StateMachineRoundView{VRV: v.Clone()}), true
 		}
 		return "n/a", true
+	case "NCHC":
+		// The rest of the network commits this height without waiting for this validator (the other validators' and
+		// the Byzantine validator's precommits for A in the current round, with A's proposal), and the mirror's
+		// height-committed signal follows at once: the view showing the commit and the signal are ready together.
+		if b.cur == nil || b.cur.HeightCommitted == nil || b.catchUp {
+			return "n/a", true
+		}
+		h, r := b.cur.H, b.cur.R
+		if w.H != h {
+			return "n/a:network-not-at-this-height", true
+		}
+		v := b.view(w, h, r)
+		hd := w.header("A", h)
+		have := false
+		for _, ph := range v.ProposedHeaders {
+			if string(ph.Header.Hash) == string(hd.Hash) {
+				have = true
+			}
+		}
+		if !have {
+			v.ProposedHeaders = append(v.ProposedHeaders, w.proposal(hd, r, w.proposerIdx("A", r)))
+			v.Version++
+		}
+		me := w.idxOf(h, n.keyIdx)
+		for i := 0; i < nVals; i++ {
+			if i == me {
+				continue
+			}
+			if i != byzIdx && !w.honestMay('c', h, r, i, string(hd.Hash)) {
+				continue
+			}
+			if b.addVote(w, 'c', h, r, string(hd.Hash), w.voteSig('c', h, r, string(hd.Hash), i)) {
+				w.noteHonestPrecommit(h, r, string(hd.Hash), i)
+			}
+		}
+		if w.H <= h {
+			return "n/a:no-majority-without-this-validator", true
+		}
+		b.dirty = true
+		func() {
+			defer func() { _ = recover() }()
+			close(b.cur.HeightCommitted)
+		}()
+		return "network-committed+signalled", true
 	case "HC":
 		if b.cur == nil || b.cur.HeightCommitted == nil {
 			return "n/a", true
@@ -677,7 +725,7 @@ func bareAlphabet() []string {
 			}
 		}
 	}
-	a = append(a, "PH:A", "PH:B", "ENT", "ENT:ch", "VW:old", "VW:oldfull", "VW:oldheight", "HC",
+	a = append(a, "PH:A", "PH:B", "ENT", "ENT:ch", "VW:old", "VW:oldfull", "VW:oldheight", "HC", "NCHC",
 		"SR", "SR:propose", "SR:A", "SR:B", "SR:nil", "SR:notready", "TF", "DR", "PROP", "BDA", "Restart")
 	return a
 }
@@ -721,8 +769,19 @@ func runBare(events []string, props []string, args map[string]string) (res vx.Re
 		res.HarnessErr = "fresh state machine failed to start: " + n.startErr
 		return
 	}
+	check := func() {
+		o.prevSnap = s.snapshot()
+		mon.check()
+	}
+	b.onPass = func() {
+		// At rest between two passes; what was delivered so far is what the state machine has seen.
+		b.drain(s)
+		mon.partial = true
+		check()
+		mon.partial = false
+	}
 	b.pump(s)
-	mon.check()
+	check()
 	for i, ev := range events {
 		s.step, n.step = i, i
 		s.curEvent = ev
@@ -741,7 +800,7 @@ func runBare(events []string, props []string, args map[string]string) (res vx.Re
 			cnt, _ := strconv.Atoi(p[1])
 			pc, _ := strconv.Atoi(p[2])
 			result = "n/a:not-gated"
-			if b.gated && b.batch == 0 && cnt > 1 {
+			if b.gated && b.batch == 0 && cnt >= 1 {
 				b.batch, b.pref = cnt+1, pc
 				result = "batching"
 			}
@@ -758,7 +817,7 @@ func runBare(events []string, props []string, args map[string]string) (res vx.Re
 		}
 		if b.batch == 0 {
 			b.pump(s)
-			mon.check()
+			check()
 		} else {
 			// Inputs are piling up in front of a held kernel: not a point at which the monitors' "at rest" clauses apply.
 			b.drain(s)
@@ -770,6 +829,7 @@ func runBare(events []string, props []string, args map[string]string) (res vx.Re
 	s.curEvent = "final"
 	b.batch = 0
 	b.pump(s)
+	o.prevSnap = s.snapshot()
 	if os.Getenv("VERIF_STACK") != "" {
 		buf := make([]byte, 1<<20)
 		buf = buf[:runtime.Stack(buf, true)]
